@@ -53,7 +53,8 @@ def run(ctx):
             # long chains: 9-14 scales, without NI_Number_Of_Scales (the count comes from the highest NI_Scale[i] index)
             props_x, graph_x = gs.draw_graph(rnd, n=rnd.randint(9, 14), types=["Linear", "Add", "Subtract"], with_noop=True, with_number=rnd.random() < 0.3)
         else:
-            props_x, graph_x = gs.draw_graph(rnd, first_scales_daqmx=k, with_noop=rnd.random() < 0.2)
+            # (every fourth plain graph with permuted indices: inputs taken from scales with a HIGHER index, still acyclic)
+            props_x, graph_x = gs.draw_graph(rnd, first_scales_daqmx=k, with_noop=rnd.random() < 0.2, forward=(not daq and i % 4 == 1))
         props_y, graph_y = gs.draw_graph(rnd, with_noop=False)
         cp, gp, rp = [], [], []
         effective = graph_x
